@@ -50,117 +50,139 @@ Definition upd {A} (m : nat -> A) (i : nat) (v : A) : nat -> A :=
 Definition K_CONNECT := 0. Definition K_CLOSE := 1. Definition K_ROLLBACK := 2.
 Definition K_COMMIT := 3. Definition K_PING := 4. Definition K_EVENT := 5.
 
+(* The state is a record of five groups (external world, connections, records, fairies, pool
+   structure) plus the harness' holder slots; fields are accessed through top-level projections
+   [clock s], [r_fairy s] ... and updated through [set_clock s v], [set_r_fairy s v] ... *)
+Record ext : Type := mk_ext {
+  clock_ : Z;
+  faults_ : list Z;
+  trace_ : list (Z * Z);
+  taint_close_ : bool;
+  taint_gc_ : bool
+}.
+Record cns : Type := mk_cns {
+  nconns_ : nat;
+  c_nclose_ : nat -> Z;
+  c_start_ : nat -> Z;
+  c_det_ : nat -> bool;
+  c_mark_ : nat -> bool;
+  c_soft_ : nat -> bool
+}.
+Record rcs : Type := mk_rcs {
+  nrecs_ : nat;
+  r_dbc_ : nat -> option nat;
+  r_start_ : nat -> Z;
+  r_soft_ : nat -> Z;
+  r_fresh_ : nat -> bool;
+  r_fairy_ : nat -> option nat
+}.
+Record frs : Type := mk_frs {
+  nfairies_ : nat;
+  f_dbc_ : nat -> option nat;
+  f_rec_ : nat -> option nat;
+  f_orig_ : nat -> nat;
+  f_counter_ : nat -> Z;
+  f_dead_ : nat -> bool
+}.
+Record pls : Type := mk_pls {
+  inv_time_ : Z;
+  q_ : list nat;
+  overflow_ : Z;
+  static_ : option nat;
+  sg_rec_ : option nat;
+  sg_fairy_ : option nat;
+  as_conn_ : option nat;
+  as_out_ : bool
+}.
 Record st : Type := mkst {
-  clock : Z;
-  faults : list Z;
-  trace : list (Z * Z);
-  taint_close : bool;
-  taint_gc : bool;
-  nconns : nat;
-  c_nclose : nat -> Z;
-  c_start : nat -> Z;
-  c_det : nat -> bool;
-  c_mark : nat -> bool;
-  c_soft : nat -> bool;
-  nrecs : nat;
-  r_dbc : nat -> option nat;
-  r_start : nat -> Z;
-  r_soft : nat -> Z;
-  r_fresh : nat -> bool;
-  r_fairy : nat -> option nat;
-  nfairies : nat;
-  f_dbc : nat -> option nat;
-  f_rec : nat -> option nat;
-  f_orig : nat -> nat;
-  f_counter : nat -> Z;
-  f_dead : nat -> bool;
+  ex : ext;
+  cn : cns;
+  rc : rcs;
+  fr : frs;
   holders : list (option nat);
-  inv_time : Z;
-  q : list nat;
-  overflow : Z;
-  static : option nat;
-  sg_rec : option nat;
-  sg_fairy : option nat;
-  as_conn : option nat;
-  as_out : bool
+  pl : pls
 }.
 
-Definition set_clock (s : st) (v : Z) : st :=
-  {| clock := v; faults := faults s; trace := trace s; taint_close := taint_close s; taint_gc := taint_gc s; nconns := nconns s; c_nclose := c_nclose s; c_start := c_start s; c_det := c_det s; c_mark := c_mark s; c_soft := c_soft s; nrecs := nrecs s; r_dbc := r_dbc s; r_start := r_start s; r_soft := r_soft s; r_fresh := r_fresh s; r_fairy := r_fairy s; nfairies := nfairies s; f_dbc := f_dbc s; f_rec := f_rec s; f_orig := f_orig s; f_counter := f_counter s; f_dead := f_dead s; holders := holders s; inv_time := inv_time s; q := q s; overflow := overflow s; static := static s; sg_rec := sg_rec s; sg_fairy := sg_fairy s; as_conn := as_conn s; as_out := as_out s |}.
-Definition set_faults (s : st) (v : list Z) : st :=
-  {| clock := clock s; faults := v; trace := trace s; taint_close := taint_close s; taint_gc := taint_gc s; nconns := nconns s; c_nclose := c_nclose s; c_start := c_start s; c_det := c_det s; c_mark := c_mark s; c_soft := c_soft s; nrecs := nrecs s; r_dbc := r_dbc s; r_start := r_start s; r_soft := r_soft s; r_fresh := r_fresh s; r_fairy := r_fairy s; nfairies := nfairies s; f_dbc := f_dbc s; f_rec := f_rec s; f_orig := f_orig s; f_counter := f_counter s; f_dead := f_dead s; holders := holders s; inv_time := inv_time s; q := q s; overflow := overflow s; static := static s; sg_rec := sg_rec s; sg_fairy := sg_fairy s; as_conn := as_conn s; as_out := as_out s |}.
-Definition set_trace (s : st) (v : list (Z * Z)) : st :=
-  {| clock := clock s; faults := faults s; trace := v; taint_close := taint_close s; taint_gc := taint_gc s; nconns := nconns s; c_nclose := c_nclose s; c_start := c_start s; c_det := c_det s; c_mark := c_mark s; c_soft := c_soft s; nrecs := nrecs s; r_dbc := r_dbc s; r_start := r_start s; r_soft := r_soft s; r_fresh := r_fresh s; r_fairy := r_fairy s; nfairies := nfairies s; f_dbc := f_dbc s; f_rec := f_rec s; f_orig := f_orig s; f_counter := f_counter s; f_dead := f_dead s; holders := holders s; inv_time := inv_time s; q := q s; overflow := overflow s; static := static s; sg_rec := sg_rec s; sg_fairy := sg_fairy s; as_conn := as_conn s; as_out := as_out s |}.
-Definition set_taint_close (s : st) (v : bool) : st :=
-  {| clock := clock s; faults := faults s; trace := trace s; taint_close := v; taint_gc := taint_gc s; nconns := nconns s; c_nclose := c_nclose s; c_start := c_start s; c_det := c_det s; c_mark := c_mark s; c_soft := c_soft s; nrecs := nrecs s; r_dbc := r_dbc s; r_start := r_start s; r_soft := r_soft s; r_fresh := r_fresh s; r_fairy := r_fairy s; nfairies := nfairies s; f_dbc := f_dbc s; f_rec := f_rec s; f_orig := f_orig s; f_counter := f_counter s; f_dead := f_dead s; holders := holders s; inv_time := inv_time s; q := q s; overflow := overflow s; static := static s; sg_rec := sg_rec s; sg_fairy := sg_fairy s; as_conn := as_conn s; as_out := as_out s |}.
-Definition set_taint_gc (s : st) (v : bool) : st :=
-  {| clock := clock s; faults := faults s; trace := trace s; taint_close := taint_close s; taint_gc := v; nconns := nconns s; c_nclose := c_nclose s; c_start := c_start s; c_det := c_det s; c_mark := c_mark s; c_soft := c_soft s; nrecs := nrecs s; r_dbc := r_dbc s; r_start := r_start s; r_soft := r_soft s; r_fresh := r_fresh s; r_fairy := r_fairy s; nfairies := nfairies s; f_dbc := f_dbc s; f_rec := f_rec s; f_orig := f_orig s; f_counter := f_counter s; f_dead := f_dead s; holders := holders s; inv_time := inv_time s; q := q s; overflow := overflow s; static := static s; sg_rec := sg_rec s; sg_fairy := sg_fairy s; as_conn := as_conn s; as_out := as_out s |}.
-Definition set_nconns (s : st) (v : nat) : st :=
-  {| clock := clock s; faults := faults s; trace := trace s; taint_close := taint_close s; taint_gc := taint_gc s; nconns := v; c_nclose := c_nclose s; c_start := c_start s; c_det := c_det s; c_mark := c_mark s; c_soft := c_soft s; nrecs := nrecs s; r_dbc := r_dbc s; r_start := r_start s; r_soft := r_soft s; r_fresh := r_fresh s; r_fairy := r_fairy s; nfairies := nfairies s; f_dbc := f_dbc s; f_rec := f_rec s; f_orig := f_orig s; f_counter := f_counter s; f_dead := f_dead s; holders := holders s; inv_time := inv_time s; q := q s; overflow := overflow s; static := static s; sg_rec := sg_rec s; sg_fairy := sg_fairy s; as_conn := as_conn s; as_out := as_out s |}.
-Definition set_c_nclose (s : st) (v : nat -> Z) : st :=
-  {| clock := clock s; faults := faults s; trace := trace s; taint_close := taint_close s; taint_gc := taint_gc s; nconns := nconns s; c_nclose := v; c_start := c_start s; c_det := c_det s; c_mark := c_mark s; c_soft := c_soft s; nrecs := nrecs s; r_dbc := r_dbc s; r_start := r_start s; r_soft := r_soft s; r_fresh := r_fresh s; r_fairy := r_fairy s; nfairies := nfairies s; f_dbc := f_dbc s; f_rec := f_rec s; f_orig := f_orig s; f_counter := f_counter s; f_dead := f_dead s; holders := holders s; inv_time := inv_time s; q := q s; overflow := overflow s; static := static s; sg_rec := sg_rec s; sg_fairy := sg_fairy s; as_conn := as_conn s; as_out := as_out s |}.
-Definition set_c_start (s : st) (v : nat -> Z) : st :=
-  {| clock := clock s; faults := faults s; trace := trace s; taint_close := taint_close s; taint_gc := taint_gc s; nconns := nconns s; c_nclose := c_nclose s; c_start := v; c_det := c_det s; c_mark := c_mark s; c_soft := c_soft s; nrecs := nrecs s; r_dbc := r_dbc s; r_start := r_start s; r_soft := r_soft s; r_fresh := r_fresh s; r_fairy := r_fairy s; nfairies := nfairies s; f_dbc := f_dbc s; f_rec := f_rec s; f_orig := f_orig s; f_counter := f_counter s; f_dead := f_dead s; holders := holders s; inv_time := inv_time s; q := q s; overflow := overflow s; static := static s; sg_rec := sg_rec s; sg_fairy := sg_fairy s; as_conn := as_conn s; as_out := as_out s |}.
-Definition set_c_det (s : st) (v : nat -> bool) : st :=
-  {| clock := clock s; faults := faults s; trace := trace s; taint_close := taint_close s; taint_gc := taint_gc s; nconns := nconns s; c_nclose := c_nclose s; c_start := c_start s; c_det := v; c_mark := c_mark s; c_soft := c_soft s; nrecs := nrecs s; r_dbc := r_dbc s; r_start := r_start s; r_soft := r_soft s; r_fresh := r_fresh s; r_fairy := r_fairy s; nfairies := nfairies s; f_dbc := f_dbc s; f_rec := f_rec s; f_orig := f_orig s; f_counter := f_counter s; f_dead := f_dead s; holders := holders s; inv_time := inv_time s; q := q s; overflow := overflow s; static := static s; sg_rec := sg_rec s; sg_fairy := sg_fairy s; as_conn := as_conn s; as_out := as_out s |}.
-Definition set_c_mark (s : st) (v : nat -> bool) : st :=
-  {| clock := clock s; faults := faults s; trace := trace s; taint_close := taint_close s; taint_gc := taint_gc s; nconns := nconns s; c_nclose := c_nclose s; c_start := c_start s; c_det := c_det s; c_mark := v; c_soft := c_soft s; nrecs := nrecs s; r_dbc := r_dbc s; r_start := r_start s; r_soft := r_soft s; r_fresh := r_fresh s; r_fairy := r_fairy s; nfairies := nfairies s; f_dbc := f_dbc s; f_rec := f_rec s; f_orig := f_orig s; f_counter := f_counter s; f_dead := f_dead s; holders := holders s; inv_time := inv_time s; q := q s; overflow := overflow s; static := static s; sg_rec := sg_rec s; sg_fairy := sg_fairy s; as_conn := as_conn s; as_out := as_out s |}.
-Definition set_c_soft (s : st) (v : nat -> bool) : st :=
-  {| clock := clock s; faults := faults s; trace := trace s; taint_close := taint_close s; taint_gc := taint_gc s; nconns := nconns s; c_nclose := c_nclose s; c_start := c_start s; c_det := c_det s; c_mark := c_mark s; c_soft := v; nrecs := nrecs s; r_dbc := r_dbc s; r_start := r_start s; r_soft := r_soft s; r_fresh := r_fresh s; r_fairy := r_fairy s; nfairies := nfairies s; f_dbc := f_dbc s; f_rec := f_rec s; f_orig := f_orig s; f_counter := f_counter s; f_dead := f_dead s; holders := holders s; inv_time := inv_time s; q := q s; overflow := overflow s; static := static s; sg_rec := sg_rec s; sg_fairy := sg_fairy s; as_conn := as_conn s; as_out := as_out s |}.
-Definition set_nrecs (s : st) (v : nat) : st :=
-  {| clock := clock s; faults := faults s; trace := trace s; taint_close := taint_close s; taint_gc := taint_gc s; nconns := nconns s; c_nclose := c_nclose s; c_start := c_start s; c_det := c_det s; c_mark := c_mark s; c_soft := c_soft s; nrecs := v; r_dbc := r_dbc s; r_start := r_start s; r_soft := r_soft s; r_fresh := r_fresh s; r_fairy := r_fairy s; nfairies := nfairies s; f_dbc := f_dbc s; f_rec := f_rec s; f_orig := f_orig s; f_counter := f_counter s; f_dead := f_dead s; holders := holders s; inv_time := inv_time s; q := q s; overflow := overflow s; static := static s; sg_rec := sg_rec s; sg_fairy := sg_fairy s; as_conn := as_conn s; as_out := as_out s |}.
-Definition set_r_dbc (s : st) (v : nat -> option nat) : st :=
-  {| clock := clock s; faults := faults s; trace := trace s; taint_close := taint_close s; taint_gc := taint_gc s; nconns := nconns s; c_nclose := c_nclose s; c_start := c_start s; c_det := c_det s; c_mark := c_mark s; c_soft := c_soft s; nrecs := nrecs s; r_dbc := v; r_start := r_start s; r_soft := r_soft s; r_fresh := r_fresh s; r_fairy := r_fairy s; nfairies := nfairies s; f_dbc := f_dbc s; f_rec := f_rec s; f_orig := f_orig s; f_counter := f_counter s; f_dead := f_dead s; holders := holders s; inv_time := inv_time s; q := q s; overflow := overflow s; static := static s; sg_rec := sg_rec s; sg_fairy := sg_fairy s; as_conn := as_conn s; as_out := as_out s |}.
-Definition set_r_start (s : st) (v : nat -> Z) : st :=
-  {| clock := clock s; faults := faults s; trace := trace s; taint_close := taint_close s; taint_gc := taint_gc s; nconns := nconns s; c_nclose := c_nclose s; c_start := c_start s; c_det := c_det s; c_mark := c_mark s; c_soft := c_soft s; nrecs := nrecs s; r_dbc := r_dbc s; r_start := v; r_soft := r_soft s; r_fresh := r_fresh s; r_fairy := r_fairy s; nfairies := nfairies s; f_dbc := f_dbc s; f_rec := f_rec s; f_orig := f_orig s; f_counter := f_counter s; f_dead := f_dead s; holders := holders s; inv_time := inv_time s; q := q s; overflow := overflow s; static := static s; sg_rec := sg_rec s; sg_fairy := sg_fairy s; as_conn := as_conn s; as_out := as_out s |}.
-Definition set_r_soft (s : st) (v : nat -> Z) : st :=
-  {| clock := clock s; faults := faults s; trace := trace s; taint_close := taint_close s; taint_gc := taint_gc s; nconns := nconns s; c_nclose := c_nclose s; c_start := c_start s; c_det := c_det s; c_mark := c_mark s; c_soft := c_soft s; nrecs := nrecs s; r_dbc := r_dbc s; r_start := r_start s; r_soft := v; r_fresh := r_fresh s; r_fairy := r_fairy s; nfairies := nfairies s; f_dbc := f_dbc s; f_rec := f_rec s; f_orig := f_orig s; f_counter := f_counter s; f_dead := f_dead s; holders := holders s; inv_time := inv_time s; q := q s; overflow := overflow s; static := static s; sg_rec := sg_rec s; sg_fairy := sg_fairy s; as_conn := as_conn s; as_out := as_out s |}.
-Definition set_r_fresh (s : st) (v : nat -> bool) : st :=
-  {| clock := clock s; faults := faults s; trace := trace s; taint_close := taint_close s; taint_gc := taint_gc s; nconns := nconns s; c_nclose := c_nclose s; c_start := c_start s; c_det := c_det s; c_mark := c_mark s; c_soft := c_soft s; nrecs := nrecs s; r_dbc := r_dbc s; r_start := r_start s; r_soft := r_soft s; r_fresh := v; r_fairy := r_fairy s; nfairies := nfairies s; f_dbc := f_dbc s; f_rec := f_rec s; f_orig := f_orig s; f_counter := f_counter s; f_dead := f_dead s; holders := holders s; inv_time := inv_time s; q := q s; overflow := overflow s; static := static s; sg_rec := sg_rec s; sg_fairy := sg_fairy s; as_conn := as_conn s; as_out := as_out s |}.
-Definition set_r_fairy (s : st) (v : nat -> option nat) : st :=
-  {| clock := clock s; faults := faults s; trace := trace s; taint_close := taint_close s; taint_gc := taint_gc s; nconns := nconns s; c_nclose := c_nclose s; c_start := c_start s; c_det := c_det s; c_mark := c_mark s; c_soft := c_soft s; nrecs := nrecs s; r_dbc := r_dbc s; r_start := r_start s; r_soft := r_soft s; r_fresh := r_fresh s; r_fairy := v; nfairies := nfairies s; f_dbc := f_dbc s; f_rec := f_rec s; f_orig := f_orig s; f_counter := f_counter s; f_dead := f_dead s; holders := holders s; inv_time := inv_time s; q := q s; overflow := overflow s; static := static s; sg_rec := sg_rec s; sg_fairy := sg_fairy s; as_conn := as_conn s; as_out := as_out s |}.
-Definition set_nfairies (s : st) (v : nat) : st :=
-  {| clock := clock s; faults := faults s; trace := trace s; taint_close := taint_close s; taint_gc := taint_gc s; nconns := nconns s; c_nclose := c_nclose s; c_start := c_start s; c_det := c_det s; c_mark := c_mark s; c_soft := c_soft s; nrecs := nrecs s; r_dbc := r_dbc s; r_start := r_start s; r_soft := r_soft s; r_fresh := r_fresh s; r_fairy := r_fairy s; nfairies := v; f_dbc := f_dbc s; f_rec := f_rec s; f_orig := f_orig s; f_counter := f_counter s; f_dead := f_dead s; holders := holders s; inv_time := inv_time s; q := q s; overflow := overflow s; static := static s; sg_rec := sg_rec s; sg_fairy := sg_fairy s; as_conn := as_conn s; as_out := as_out s |}.
-Definition set_f_dbc (s : st) (v : nat -> option nat) : st :=
-  {| clock := clock s; faults := faults s; trace := trace s; taint_close := taint_close s; taint_gc := taint_gc s; nconns := nconns s; c_nclose := c_nclose s; c_start := c_start s; c_det := c_det s; c_mark := c_mark s; c_soft := c_soft s; nrecs := nrecs s; r_dbc := r_dbc s; r_start := r_start s; r_soft := r_soft s; r_fresh := r_fresh s; r_fairy := r_fairy s; nfairies := nfairies s; f_dbc := v; f_rec := f_rec s; f_orig := f_orig s; f_counter := f_counter s; f_dead := f_dead s; holders := holders s; inv_time := inv_time s; q := q s; overflow := overflow s; static := static s; sg_rec := sg_rec s; sg_fairy := sg_fairy s; as_conn := as_conn s; as_out := as_out s |}.
-Definition set_f_rec (s : st) (v : nat -> option nat) : st :=
-  {| clock := clock s; faults := faults s; trace := trace s; taint_close := taint_close s; taint_gc := taint_gc s; nconns := nconns s; c_nclose := c_nclose s; c_start := c_start s; c_det := c_det s; c_mark := c_mark s; c_soft := c_soft s; nrecs := nrecs s; r_dbc := r_dbc s; r_start := r_start s; r_soft := r_soft s; r_fresh := r_fresh s; r_fairy := r_fairy s; nfairies := nfairies s; f_dbc := f_dbc s; f_rec := v; f_orig := f_orig s; f_counter := f_counter s; f_dead := f_dead s; holders := holders s; inv_time := inv_time s; q := q s; overflow := overflow s; static := static s; sg_rec := sg_rec s; sg_fairy := sg_fairy s; as_conn := as_conn s; as_out := as_out s |}.
-Definition set_f_orig (s : st) (v : nat -> nat) : st :=
-  {| clock := clock s; faults := faults s; trace := trace s; taint_close := taint_close s; taint_gc := taint_gc s; nconns := nconns s; c_nclose := c_nclose s; c_start := c_start s; c_det := c_det s; c_mark := c_mark s; c_soft := c_soft s; nrecs := nrecs s; r_dbc := r_dbc s; r_start := r_start s; r_soft := r_soft s; r_fresh := r_fresh s; r_fairy := r_fairy s; nfairies := nfairies s; f_dbc := f_dbc s; f_rec := f_rec s; f_orig := v; f_counter := f_counter s; f_dead := f_dead s; holders := holders s; inv_time := inv_time s; q := q s; overflow := overflow s; static := static s; sg_rec := sg_rec s; sg_fairy := sg_fairy s; as_conn := as_conn s; as_out := as_out s |}.
-Definition set_f_counter (s : st) (v : nat -> Z) : st :=
-  {| clock := clock s; faults := faults s; trace := trace s; taint_close := taint_close s; taint_gc := taint_gc s; nconns := nconns s; c_nclose := c_nclose s; c_start := c_start s; c_det := c_det s; c_mark := c_mark s; c_soft := c_soft s; nrecs := nrecs s; r_dbc := r_dbc s; r_start := r_start s; r_soft := r_soft s; r_fresh := r_fresh s; r_fairy := r_fairy s; nfairies := nfairies s; f_dbc := f_dbc s; f_rec := f_rec s; f_orig := f_orig s; f_counter := v; f_dead := f_dead s; holders := holders s; inv_time := inv_time s; q := q s; overflow := overflow s; static := static s; sg_rec := sg_rec s; sg_fairy := sg_fairy s; as_conn := as_conn s; as_out := as_out s |}.
-Definition set_f_dead (s : st) (v : nat -> bool) : st :=
-  {| clock := clock s; faults := faults s; trace := trace s; taint_close := taint_close s; taint_gc := taint_gc s; nconns := nconns s; c_nclose := c_nclose s; c_start := c_start s; c_det := c_det s; c_mark := c_mark s; c_soft := c_soft s; nrecs := nrecs s; r_dbc := r_dbc s; r_start := r_start s; r_soft := r_soft s; r_fresh := r_fresh s; r_fairy := r_fairy s; nfairies := nfairies s; f_dbc := f_dbc s; f_rec := f_rec s; f_orig := f_orig s; f_counter := f_counter s; f_dead := v; holders := holders s; inv_time := inv_time s; q := q s; overflow := overflow s; static := static s; sg_rec := sg_rec s; sg_fairy := sg_fairy s; as_conn := as_conn s; as_out := as_out s |}.
-Definition set_holders (s : st) (v : list (option nat)) : st :=
-  {| clock := clock s; faults := faults s; trace := trace s; taint_close := taint_close s; taint_gc := taint_gc s; nconns := nconns s; c_nclose := c_nclose s; c_start := c_start s; c_det := c_det s; c_mark := c_mark s; c_soft := c_soft s; nrecs := nrecs s; r_dbc := r_dbc s; r_start := r_start s; r_soft := r_soft s; r_fresh := r_fresh s; r_fairy := r_fairy s; nfairies := nfairies s; f_dbc := f_dbc s; f_rec := f_rec s; f_orig := f_orig s; f_counter := f_counter s; f_dead := f_dead s; holders := v; inv_time := inv_time s; q := q s; overflow := overflow s; static := static s; sg_rec := sg_rec s; sg_fairy := sg_fairy s; as_conn := as_conn s; as_out := as_out s |}.
-Definition set_inv_time (s : st) (v : Z) : st :=
-  {| clock := clock s; faults := faults s; trace := trace s; taint_close := taint_close s; taint_gc := taint_gc s; nconns := nconns s; c_nclose := c_nclose s; c_start := c_start s; c_det := c_det s; c_mark := c_mark s; c_soft := c_soft s; nrecs := nrecs s; r_dbc := r_dbc s; r_start := r_start s; r_soft := r_soft s; r_fresh := r_fresh s; r_fairy := r_fairy s; nfairies := nfairies s; f_dbc := f_dbc s; f_rec := f_rec s; f_orig := f_orig s; f_counter := f_counter s; f_dead := f_dead s; holders := holders s; inv_time := v; q := q s; overflow := overflow s; static := static s; sg_rec := sg_rec s; sg_fairy := sg_fairy s; as_conn := as_conn s; as_out := as_out s |}.
-Definition set_q (s : st) (v : list nat) : st :=
-  {| clock := clock s; faults := faults s; trace := trace s; taint_close := taint_close s; taint_gc := taint_gc s; nconns := nconns s; c_nclose := c_nclose s; c_start := c_start s; c_det := c_det s; c_mark := c_mark s; c_soft := c_soft s; nrecs := nrecs s; r_dbc := r_dbc s; r_start := r_start s; r_soft := r_soft s; r_fresh := r_fresh s; r_fairy := r_fairy s; nfairies := nfairies s; f_dbc := f_dbc s; f_rec := f_rec s; f_orig := f_orig s; f_counter := f_counter s; f_dead := f_dead s; holders := holders s; inv_time := inv_time s; q := v; overflow := overflow s; static := static s; sg_rec := sg_rec s; sg_fairy := sg_fairy s; as_conn := as_conn s; as_out := as_out s |}.
-Definition set_overflow (s : st) (v : Z) : st :=
-  {| clock := clock s; faults := faults s; trace := trace s; taint_close := taint_close s; taint_gc := taint_gc s; nconns := nconns s; c_nclose := c_nclose s; c_start := c_start s; c_det := c_det s; c_mark := c_mark s; c_soft := c_soft s; nrecs := nrecs s; r_dbc := r_dbc s; r_start := r_start s; r_soft := r_soft s; r_fresh := r_fresh s; r_fairy := r_fairy s; nfairies := nfairies s; f_dbc := f_dbc s; f_rec := f_rec s; f_orig := f_orig s; f_counter := f_counter s; f_dead := f_dead s; holders := holders s; inv_time := inv_time s; q := q s; overflow := v; static := static s; sg_rec := sg_rec s; sg_fairy := sg_fairy s; as_conn := as_conn s; as_out := as_out s |}.
-Definition set_static (s : st) (v : option nat) : st :=
-  {| clock := clock s; faults := faults s; trace := trace s; taint_close := taint_close s; taint_gc := taint_gc s; nconns := nconns s; c_nclose := c_nclose s; c_start := c_start s; c_det := c_det s; c_mark := c_mark s; c_soft := c_soft s; nrecs := nrecs s; r_dbc := r_dbc s; r_start := r_start s; r_soft := r_soft s; r_fresh := r_fresh s; r_fairy := r_fairy s; nfairies := nfairies s; f_dbc := f_dbc s; f_rec := f_rec s; f_orig := f_orig s; f_counter := f_counter s; f_dead := f_dead s; holders := holders s; inv_time := inv_time s; q := q s; overflow := overflow s; static := v; sg_rec := sg_rec s; sg_fairy := sg_fairy s; as_conn := as_conn s; as_out := as_out s |}.
-Definition set_sg_rec (s : st) (v : option nat) : st :=
-  {| clock := clock s; faults := faults s; trace := trace s; taint_close := taint_close s; taint_gc := taint_gc s; nconns := nconns s; c_nclose := c_nclose s; c_start := c_start s; c_det := c_det s; c_mark := c_mark s; c_soft := c_soft s; nrecs := nrecs s; r_dbc := r_dbc s; r_start := r_start s; r_soft := r_soft s; r_fresh := r_fresh s; r_fairy := r_fairy s; nfairies := nfairies s; f_dbc := f_dbc s; f_rec := f_rec s; f_orig := f_orig s; f_counter := f_counter s; f_dead := f_dead s; holders := holders s; inv_time := inv_time s; q := q s; overflow := overflow s; static := static s; sg_rec := v; sg_fairy := sg_fairy s; as_conn := as_conn s; as_out := as_out s |}.
-Definition set_sg_fairy (s : st) (v : option nat) : st :=
-  {| clock := clock s; faults := faults s; trace := trace s; taint_close := taint_close s; taint_gc := taint_gc s; nconns := nconns s; c_nclose := c_nclose s; c_start := c_start s; c_det := c_det s; c_mark := c_mark s; c_soft := c_soft s; nrecs := nrecs s; r_dbc := r_dbc s; r_start := r_start s; r_soft := r_soft s; r_fresh := r_fresh s; r_fairy := r_fairy s; nfairies := nfairies s; f_dbc := f_dbc s; f_rec := f_rec s; f_orig := f_orig s; f_counter := f_counter s; f_dead := f_dead s; holders := holders s; inv_time := inv_time s; q := q s; overflow := overflow s; static := static s; sg_rec := sg_rec s; sg_fairy := v; as_conn := as_conn s; as_out := as_out s |}.
-Definition set_as_conn (s : st) (v : option nat) : st :=
-  {| clock := clock s; faults := faults s; trace := trace s; taint_close := taint_close s; taint_gc := taint_gc s; nconns := nconns s; c_nclose := c_nclose s; c_start := c_start s; c_det := c_det s; c_mark := c_mark s; c_soft := c_soft s; nrecs := nrecs s; r_dbc := r_dbc s; r_start := r_start s; r_soft := r_soft s; r_fresh := r_fresh s; r_fairy := r_fairy s; nfairies := nfairies s; f_dbc := f_dbc s; f_rec := f_rec s; f_orig := f_orig s; f_counter := f_counter s; f_dead := f_dead s; holders := holders s; inv_time := inv_time s; q := q s; overflow := overflow s; static := static s; sg_rec := sg_rec s; sg_fairy := sg_fairy s; as_conn := v; as_out := as_out s |}.
-Definition set_as_out (s : st) (v : bool) : st :=
-  {| clock := clock s; faults := faults s; trace := trace s; taint_close := taint_close s; taint_gc := taint_gc s; nconns := nconns s; c_nclose := c_nclose s; c_start := c_start s; c_det := c_det s; c_mark := c_mark s; c_soft := c_soft s; nrecs := nrecs s; r_dbc := r_dbc s; r_start := r_start s; r_soft := r_soft s; r_fresh := r_fresh s; r_fairy := r_fairy s; nfairies := nfairies s; f_dbc := f_dbc s; f_rec := f_rec s; f_orig := f_orig s; f_counter := f_counter s; f_dead := f_dead s; holders := holders s; inv_time := inv_time s; q := q s; overflow := overflow s; static := static s; sg_rec := sg_rec s; sg_fairy := sg_fairy s; as_conn := as_conn s; as_out := v |}.
+Definition set_ex (s : st) (v : ext) : st := {| ex := v; cn := cn s; rc := rc s; fr := fr s; holders := holders s; pl := pl s |}.
+Definition set_cn (s : st) (v : cns) : st := {| ex := ex s; cn := v; rc := rc s; fr := fr s; holders := holders s; pl := pl s |}.
+Definition set_rc (s : st) (v : rcs) : st := {| ex := ex s; cn := cn s; rc := v; fr := fr s; holders := holders s; pl := pl s |}.
+Definition set_fr (s : st) (v : frs) : st := {| ex := ex s; cn := cn s; rc := rc s; fr := v; holders := holders s; pl := pl s |}.
+Definition set_holders (s : st) (v : list (option nat)) : st := {| ex := ex s; cn := cn s; rc := rc s; fr := fr s; holders := v; pl := pl s |}.
+Definition set_pl (s : st) (v : pls) : st := {| ex := ex s; cn := cn s; rc := rc s; fr := fr s; holders := holders s; pl := v |}.
+Definition clock (s : st) : Z := clock_ (ex s).
+Definition faults (s : st) : list Z := faults_ (ex s).
+Definition trace (s : st) : list (Z * Z) := trace_ (ex s).
+Definition taint_close (s : st) : bool := taint_close_ (ex s).
+Definition taint_gc (s : st) : bool := taint_gc_ (ex s).
+Definition set_clock (s : st) (v : Z) : st := set_ex s {| clock_ := v; faults_ := faults_ (ex s); trace_ := trace_ (ex s); taint_close_ := taint_close_ (ex s); taint_gc_ := taint_gc_ (ex s) |}.
+Definition set_faults (s : st) (v : list Z) : st := set_ex s {| clock_ := clock_ (ex s); faults_ := v; trace_ := trace_ (ex s); taint_close_ := taint_close_ (ex s); taint_gc_ := taint_gc_ (ex s) |}.
+Definition set_trace (s : st) (v : list (Z * Z)) : st := set_ex s {| clock_ := clock_ (ex s); faults_ := faults_ (ex s); trace_ := v; taint_close_ := taint_close_ (ex s); taint_gc_ := taint_gc_ (ex s) |}.
+Definition set_taint_close (s : st) (v : bool) : st := set_ex s {| clock_ := clock_ (ex s); faults_ := faults_ (ex s); trace_ := trace_ (ex s); taint_close_ := v; taint_gc_ := taint_gc_ (ex s) |}.
+Definition set_taint_gc (s : st) (v : bool) : st := set_ex s {| clock_ := clock_ (ex s); faults_ := faults_ (ex s); trace_ := trace_ (ex s); taint_close_ := taint_close_ (ex s); taint_gc_ := v |}.
+Definition nconns (s : st) : nat := nconns_ (cn s).
+Definition c_nclose (s : st) : nat -> Z := c_nclose_ (cn s).
+Definition c_start (s : st) : nat -> Z := c_start_ (cn s).
+Definition c_det (s : st) : nat -> bool := c_det_ (cn s).
+Definition c_mark (s : st) : nat -> bool := c_mark_ (cn s).
+Definition c_soft (s : st) : nat -> bool := c_soft_ (cn s).
+Definition set_nconns (s : st) (v : nat) : st := set_cn s {| nconns_ := v; c_nclose_ := c_nclose_ (cn s); c_start_ := c_start_ (cn s); c_det_ := c_det_ (cn s); c_mark_ := c_mark_ (cn s); c_soft_ := c_soft_ (cn s) |}.
+Definition set_c_nclose (s : st) (v : nat -> Z) : st := set_cn s {| nconns_ := nconns_ (cn s); c_nclose_ := v; c_start_ := c_start_ (cn s); c_det_ := c_det_ (cn s); c_mark_ := c_mark_ (cn s); c_soft_ := c_soft_ (cn s) |}.
+Definition set_c_start (s : st) (v : nat -> Z) : st := set_cn s {| nconns_ := nconns_ (cn s); c_nclose_ := c_nclose_ (cn s); c_start_ := v; c_det_ := c_det_ (cn s); c_mark_ := c_mark_ (cn s); c_soft_ := c_soft_ (cn s) |}.
+Definition set_c_det (s : st) (v : nat -> bool) : st := set_cn s {| nconns_ := nconns_ (cn s); c_nclose_ := c_nclose_ (cn s); c_start_ := c_start_ (cn s); c_det_ := v; c_mark_ := c_mark_ (cn s); c_soft_ := c_soft_ (cn s) |}.
+Definition set_c_mark (s : st) (v : nat -> bool) : st := set_cn s {| nconns_ := nconns_ (cn s); c_nclose_ := c_nclose_ (cn s); c_start_ := c_start_ (cn s); c_det_ := c_det_ (cn s); c_mark_ := v; c_soft_ := c_soft_ (cn s) |}.
+Definition set_c_soft (s : st) (v : nat -> bool) : st := set_cn s {| nconns_ := nconns_ (cn s); c_nclose_ := c_nclose_ (cn s); c_start_ := c_start_ (cn s); c_det_ := c_det_ (cn s); c_mark_ := c_mark_ (cn s); c_soft_ := v |}.
+Definition nrecs (s : st) : nat := nrecs_ (rc s).
+Definition r_dbc (s : st) : nat -> option nat := r_dbc_ (rc s).
+Definition r_start (s : st) : nat -> Z := r_start_ (rc s).
+Definition r_soft (s : st) : nat -> Z := r_soft_ (rc s).
+Definition r_fresh (s : st) : nat -> bool := r_fresh_ (rc s).
+Definition r_fairy (s : st) : nat -> option nat := r_fairy_ (rc s).
+Definition set_nrecs (s : st) (v : nat) : st := set_rc s {| nrecs_ := v; r_dbc_ := r_dbc_ (rc s); r_start_ := r_start_ (rc s); r_soft_ := r_soft_ (rc s); r_fresh_ := r_fresh_ (rc s); r_fairy_ := r_fairy_ (rc s) |}.
+Definition set_r_dbc (s : st) (v : nat -> option nat) : st := set_rc s {| nrecs_ := nrecs_ (rc s); r_dbc_ := v; r_start_ := r_start_ (rc s); r_soft_ := r_soft_ (rc s); r_fresh_ := r_fresh_ (rc s); r_fairy_ := r_fairy_ (rc s) |}.
+Definition set_r_start (s : st) (v : nat -> Z) : st := set_rc s {| nrecs_ := nrecs_ (rc s); r_dbc_ := r_dbc_ (rc s); r_start_ := v; r_soft_ := r_soft_ (rc s); r_fresh_ := r_fresh_ (rc s); r_fairy_ := r_fairy_ (rc s) |}.
+Definition set_r_soft (s : st) (v : nat -> Z) : st := set_rc s {| nrecs_ := nrecs_ (rc s); r_dbc_ := r_dbc_ (rc s); r_start_ := r_start_ (rc s); r_soft_ := v; r_fresh_ := r_fresh_ (rc s); r_fairy_ := r_fairy_ (rc s) |}.
+Definition set_r_fresh (s : st) (v : nat -> bool) : st := set_rc s {| nrecs_ := nrecs_ (rc s); r_dbc_ := r_dbc_ (rc s); r_start_ := r_start_ (rc s); r_soft_ := r_soft_ (rc s); r_fresh_ := v; r_fairy_ := r_fairy_ (rc s) |}.
+Definition set_r_fairy (s : st) (v : nat -> option nat) : st := set_rc s {| nrecs_ := nrecs_ (rc s); r_dbc_ := r_dbc_ (rc s); r_start_ := r_start_ (rc s); r_soft_ := r_soft_ (rc s); r_fresh_ := r_fresh_ (rc s); r_fairy_ := v |}.
+Definition nfairies (s : st) : nat := nfairies_ (fr s).
+Definition f_dbc (s : st) : nat -> option nat := f_dbc_ (fr s).
+Definition f_rec (s : st) : nat -> option nat := f_rec_ (fr s).
+Definition f_orig (s : st) : nat -> nat := f_orig_ (fr s).
+Definition f_counter (s : st) : nat -> Z := f_counter_ (fr s).
+Definition f_dead (s : st) : nat -> bool := f_dead_ (fr s).
+Definition set_nfairies (s : st) (v : nat) : st := set_fr s {| nfairies_ := v; f_dbc_ := f_dbc_ (fr s); f_rec_ := f_rec_ (fr s); f_orig_ := f_orig_ (fr s); f_counter_ := f_counter_ (fr s); f_dead_ := f_dead_ (fr s) |}.
+Definition set_f_dbc (s : st) (v : nat -> option nat) : st := set_fr s {| nfairies_ := nfairies_ (fr s); f_dbc_ := v; f_rec_ := f_rec_ (fr s); f_orig_ := f_orig_ (fr s); f_counter_ := f_counter_ (fr s); f_dead_ := f_dead_ (fr s) |}.
+Definition set_f_rec (s : st) (v : nat -> option nat) : st := set_fr s {| nfairies_ := nfairies_ (fr s); f_dbc_ := f_dbc_ (fr s); f_rec_ := v; f_orig_ := f_orig_ (fr s); f_counter_ := f_counter_ (fr s); f_dead_ := f_dead_ (fr s) |}.
+Definition set_f_orig (s : st) (v : nat -> nat) : st := set_fr s {| nfairies_ := nfairies_ (fr s); f_dbc_ := f_dbc_ (fr s); f_rec_ := f_rec_ (fr s); f_orig_ := v; f_counter_ := f_counter_ (fr s); f_dead_ := f_dead_ (fr s) |}.
+Definition set_f_counter (s : st) (v : nat -> Z) : st := set_fr s {| nfairies_ := nfairies_ (fr s); f_dbc_ := f_dbc_ (fr s); f_rec_ := f_rec_ (fr s); f_orig_ := f_orig_ (fr s); f_counter_ := v; f_dead_ := f_dead_ (fr s) |}.
+Definition set_f_dead (s : st) (v : nat -> bool) : st := set_fr s {| nfairies_ := nfairies_ (fr s); f_dbc_ := f_dbc_ (fr s); f_rec_ := f_rec_ (fr s); f_orig_ := f_orig_ (fr s); f_counter_ := f_counter_ (fr s); f_dead_ := v |}.
+Definition inv_time (s : st) : Z := inv_time_ (pl s).
+Definition q (s : st) : list nat := q_ (pl s).
+Definition overflow (s : st) : Z := overflow_ (pl s).
+Definition static (s : st) : option nat := static_ (pl s).
+Definition sg_rec (s : st) : option nat := sg_rec_ (pl s).
+Definition sg_fairy (s : st) : option nat := sg_fairy_ (pl s).
+Definition as_conn (s : st) : option nat := as_conn_ (pl s).
+Definition as_out (s : st) : bool := as_out_ (pl s).
+Definition set_inv_time (s : st) (v : Z) : st := set_pl s {| inv_time_ := v; q_ := q_ (pl s); overflow_ := overflow_ (pl s); static_ := static_ (pl s); sg_rec_ := sg_rec_ (pl s); sg_fairy_ := sg_fairy_ (pl s); as_conn_ := as_conn_ (pl s); as_out_ := as_out_ (pl s) |}.
+Definition set_q (s : st) (v : list nat) : st := set_pl s {| inv_time_ := inv_time_ (pl s); q_ := v; overflow_ := overflow_ (pl s); static_ := static_ (pl s); sg_rec_ := sg_rec_ (pl s); sg_fairy_ := sg_fairy_ (pl s); as_conn_ := as_conn_ (pl s); as_out_ := as_out_ (pl s) |}.
+Definition set_overflow (s : st) (v : Z) : st := set_pl s {| inv_time_ := inv_time_ (pl s); q_ := q_ (pl s); overflow_ := v; static_ := static_ (pl s); sg_rec_ := sg_rec_ (pl s); sg_fairy_ := sg_fairy_ (pl s); as_conn_ := as_conn_ (pl s); as_out_ := as_out_ (pl s) |}.
+Definition set_static (s : st) (v : option nat) : st := set_pl s {| inv_time_ := inv_time_ (pl s); q_ := q_ (pl s); overflow_ := overflow_ (pl s); static_ := v; sg_rec_ := sg_rec_ (pl s); sg_fairy_ := sg_fairy_ (pl s); as_conn_ := as_conn_ (pl s); as_out_ := as_out_ (pl s) |}.
+Definition set_sg_rec (s : st) (v : option nat) : st := set_pl s {| inv_time_ := inv_time_ (pl s); q_ := q_ (pl s); overflow_ := overflow_ (pl s); static_ := static_ (pl s); sg_rec_ := v; sg_fairy_ := sg_fairy_ (pl s); as_conn_ := as_conn_ (pl s); as_out_ := as_out_ (pl s) |}.
+Definition set_sg_fairy (s : st) (v : option nat) : st := set_pl s {| inv_time_ := inv_time_ (pl s); q_ := q_ (pl s); overflow_ := overflow_ (pl s); static_ := static_ (pl s); sg_rec_ := sg_rec_ (pl s); sg_fairy_ := v; as_conn_ := as_conn_ (pl s); as_out_ := as_out_ (pl s) |}.
+Definition set_as_conn (s : st) (v : option nat) : st := set_pl s {| inv_time_ := inv_time_ (pl s); q_ := q_ (pl s); overflow_ := overflow_ (pl s); static_ := static_ (pl s); sg_rec_ := sg_rec_ (pl s); sg_fairy_ := sg_fairy_ (pl s); as_conn_ := v; as_out_ := as_out_ (pl s) |}.
+Definition set_as_out (s : st) (v : bool) : st := set_pl s {| inv_time_ := inv_time_ (pl s); q_ := q_ (pl s); overflow_ := overflow_ (pl s); static_ := static_ (pl s); sg_rec_ := sg_rec_ (pl s); sg_fairy_ := sg_fairy_ (pl s); as_conn_ := as_conn_ (pl s); as_out_ := v |}.
 
 Definition init (cf : cfg) (fl : list Z) : st :=
-  {| clock := 0; faults := fl; trace := []; taint_close := false; taint_gc := false;
-     nconns := 0; c_nclose := fun _ => 0; c_start := fun _ => 0; c_det := fun _ => false;
-     c_mark := fun _ => false; c_soft := fun _ => false;
-     nrecs := 0; r_dbc := fun _ => None; r_start := fun _ => 0; r_soft := fun _ => 0;
-     r_fresh := fun _ => false; r_fairy := fun _ => None;
-     nfairies := 0; f_dbc := fun _ => None; f_rec := fun _ => None; f_orig := fun _ => O;
-     f_counter := fun _ => 0; f_dead := fun _ => false;
+  {| ex := {| clock_ := 0; faults_ := fl; trace_ := []; taint_close_ := false; taint_gc_ := false |};
+     cn := {| nconns_ := O; c_nclose_ := fun _ => 0; c_start_ := fun _ => 0; c_det_ := fun _ => false;
+              c_mark_ := fun _ => false; c_soft_ := fun _ => false |};
+     rc := {| nrecs_ := O; r_dbc_ := fun _ => None; r_start_ := fun _ => 0; r_soft_ := fun _ => 0;
+              r_fresh_ := fun _ => false; r_fairy_ := fun _ => None |};
+     fr := {| nfairies_ := O; f_dbc_ := fun _ => None; f_rec_ := fun _ => None; f_orig_ := fun _ => O;
+              f_counter_ := fun _ => 0; f_dead_ := fun _ => false |};
      holders := [];
-     inv_time := 0; q := []; overflow := 0 - psize cf; static := None; sg_rec := None;
-     sg_fairy := None; as_conn := None; as_out := false |}.
+     pl := {| inv_time_ := 0; q_ := []; overflow_ := 0 - psize cf; static_ := None; sg_rec_ := None;
+              sg_fairy_ := None; as_conn_ := None; as_out_ := false |} |}.
 
 Section Model.
 Variable cf : cfg.
@@ -561,16 +583,18 @@ Definition fairy_invalidate (f : nat) (soft : bool) (s : st) : res unit * st :=
       end
   end.
 
+(* ghost: connection [o] leaves the pool's ledger (it now belongs to whoever detached it) *)
+Definition mark_det (o : option nat) (s : st) : st :=
+  match o with Some c => set_c_det s (upd (c_det s) c true) | None => s end.
+
 (* fairy.detach() *)
 Definition fairy_detach (f : nat) (s : st) : res unit * st :=
   match f_rec s f with
   | None => (Ok tt, s)
   | Some r =>
       let s1 := set_r_fairy s (upd (r_fairy s) r None) in
-      let s2 := match r_dbc s1 r with
-                | Some c => set_c_det s1 (upd (c_det s1) c true)      (* ghost: leaves the pool's ledger *)
-                | None => s1
-                end in
+      (* ghost: the record's and the fairy's connection (normally the same) leave the ledger *)
+      let s2 := mark_det (f_dbc s f) (mark_det (r_dbc s r) s1) in
       let s3 := set_r_dbc s2 (upd (r_dbc s2) r None) in
       match do_return_conn r s3 with
       | (Ok _, s4) => (Ok tt, set_f_rec s4 (upd (f_rec s4) f None))
